@@ -1188,3 +1188,280 @@ Example storage_in_time_ex :
   | None => False
   end.
 Proof. simpl. split; [apply storage_in_time_prompt | vm_compute; reflexivity]. Qed.
+
+(* ---------------------------------------------------------------------------------------------
+   worlds that violate the two assumptions baked into `env` (added 2026-10-02, audit C11)
+   --------------------------------------------------------------------------------------------- *)
+Lemma existsb_ext' {A} (f g : A -> bool) l : (forall a, f a = g a) -> existsb f l = existsb g l.
+Proof. intros H. induction l as [|a l IH]; simpl; [|rewrite H, IH]; reflexivity. Qed.
+
+Lemma flat_map_nil {A B} (f : A -> list B) l : (forall a, f a = []) -> flat_map f l = [].
+Proof. intros H. induction l as [|a l IH]; simpl; [|rewrite H, IH]; reflexivity. Qed.
+
+Lemma gen_asks_stable x s : leader_stable x -> gen_asks (env_req x) s = gen_asks (x_env x) s.
+Proof.
+  intros H. unfold gen_asks. f_equal. apply flat_map_ext. intros [t i]. unfold topic_asks.
+  apply flat_map_ext. intros p. cbn [env_req e_leader fst snd]. rewrite H. reflexivity.
+Qed.
+
+Lemma leader_failed_stable x s : leader_stable x -> leader_failed (env_req x) s = leader_failed (x_env x) s.
+Proof.
+  intros H. unfold leader_failed. apply existsb_ext'. intros [t i]. apply existsb_ext'. intros p.
+  unfold has_leader. cbn [env_req e_leader fst snd]. rewrite H. reflexivity.
+Qed.
+
+(* X.0  Under the two named hypotheses the general cycle IS `cycle`: everything proved about `cycle` / `trace` is
+   a statement about worlds in which Leader answers the same at both call sites of a cycle and every response holds
+   exactly the asked blocks. *)
+Theorem xcycle_stable st x : leader_stable x -> answers_match_asks x -> xcycle st x = cycle st (x_env x).
+Proof.
+  intros Hl [Ho He]. unfold xcycle, cycle. destruct (maybe_refresh st (x_env x)) as [s dels].
+  rewrite (gen_asks_stable x s Hl), (leader_failed_stable x s Hl).
+  assert (Hex : extra_results x (gen_asks (x_env x) s) = []).
+  { unfold extra_results. apply flat_map_nil. intros b. rewrite He. destruct (e_answer (x_env x) b); reflexivity. }
+  assert (Hr : forall a, x_ask_result x a = ask_result (x_env x) a).
+  { intros a. unfold x_ask_result. rewrite Ho. reflexivity. }
+  rewrite Hex.
+  rewrite (existsb_ext' (x_is_crash x) (is_crash (x_env x))) by (intros a; unfold x_is_crash, is_crash; rewrite Hr; reflexivity).
+  rewrite (existsb_ext' (x_is_error x) (is_error (x_env x))) by (intros a; unfold x_is_error, is_error; rewrite Hr; reflexivity).
+  rewrite (flat_map_ext (x_ask_update x s) (ask_update (x_env x) s)) by (intros a; unfold x_ask_update, ask_update; rewrite Hr; reflexivity).
+  cbn [existsb flat_map]. rewrite !orb_false_r, app_nil_r. reflexivity.
+Qed.
+
+Lemma plain_stable e : leader_stable (plain e) /\ answers_match_asks (plain e).
+Proof. repeat split. Qed.
+
+Corollary xcycle_plain st e : xcycle st (plain e) = cycle st e.
+Proof. destruct (plain_stable e) as [H1 H2]. apply (xcycle_stable st (plain e) H1 H2). Qed.
+
+Theorem xrun_plain l : forall st, xrun st (map (fun x => (fst x, plain (snd x))) l) = run st l.
+Proof.
+  induction l as [|[tk e] r IH]; simpl; intros st; auto. rewrite xcycle_plain.
+  destruct (cycle (tick tk st) e); [rewrite IH|]; reflexivity.
+Qed.
+
+Lemma xcycle_done st x o :
+  xcycle st x = Done o ->
+  let s := fst (maybe_refresh st (x_env x)) in
+  let asks := gen_asks (env_req x) s in
+  snap (co_state o) = s
+  /\ co_asks o = asks
+  /\ co_updates o = flat_map (x_ask_update x s) asks ++ flat_map (extra_update s) (extra_results x asks)
+  /\ co_deletes o = snd (maybe_refresh st (x_env x))
+  /\ fetchMetadata (co_state o)
+     = (leader_failed (env_req x) s || existsb (x_is_error x) asks || existsb br_is_error (extra_results x asks)).
+Proof.
+  unfold xcycle. destruct (maybe_refresh st (x_env x)) as [s dels]. cbn [fst snd].
+  destruct (existsb (x_is_crash x) (gen_asks (env_req x) s)
+            || existsb br_is_crash (extra_results x (gen_asks (env_req x) s))); [discriminate|].
+  intros H. inversion H; subst. cbn. auto 10.
+Qed.
+
+(* X.1  Whom the module asks, in a world where Leader may answer differently at the two call sites: the partitions
+   whose Leader SUCCEEDED DURING THE LAST COMPLETE REFRESH (ti_ids of the snapshot), each of the broker that Leader
+   names NOW, in generateOffsetRequests.  (In particular a refreshing cycle can see an unknown leader at :219.) *)
+Theorem xasked_exactly st x o :
+  wf st -> xcycle st x = Done o ->
+  (forall b t p, In (b, t, p) (co_asks o) <->
+     exists i, smap_find t (snap (co_state o)) = Some i /\ In p (ti_ids i) /\ x_leader_req x t p = Good b)
+  /\ NoDup (co_asks o).
+Proof.
+  intros Hw Hc. pose proof (refresh_wf st (x_env x) Hw) as Hn.
+  apply xcycle_done in Hc as [Hs [Ha _]]. rewrite Hs, Ha. split; [|apply NoDup_nodup].
+  intros b t p. apply (gen_asks_in (env_req x)). exact Hn.
+Qed.
+
+(* X.2  An asked block that the response omits: no update for that partition (and, see x_omitted_ex, no flag). *)
+Theorem xomitted_block_silent st x o b t p :
+  wf st -> xcycle st x = Done o -> (forall b', x_extra x b' = []) ->
+  In (b, t, p) (co_asks o) -> x_omit x b t p = true ->
+  forall off c, ~ In (t, p, off, c) (co_updates o).
+Proof.
+  intros Hw Hc He Hin Ho off c Hu.
+  destruct (xasked_exactly _ _ _ Hw Hc) as [Hask _].
+  apply xcycle_done in Hc as [_ [Ha [Hupd _]]]. rewrite Hupd in Hu.
+  assert (Hex : extra_results x (gen_asks (env_req x) (fst (maybe_refresh st (x_env x)))) = []).
+  { unfold extra_results. apply flat_map_nil. intros b'. rewrite He. destruct (e_answer (x_env x) b'); reflexivity. }
+  rewrite Hex in Hu. cbn [flat_map] in Hu. rewrite app_nil_r in Hu.
+  apply in_flat_map in Hu as [[[b' t'] p'] [Hin' Hu]]. rewrite <- Ha in Hin'.
+  unfold x_ask_update in Hu. destruct (x_ask_result x (b', t', p')) as [[o'| |]|] eqn:Er; try contradiction.
+  cbn in Hu. destruct Hu as [Hu|[]]. inversion Hu; subst t' p' o' c.
+  assert (b' = b).
+  { apply Hask in Hin as [_ [_ [_ H1]]]. apply Hask in Hin' as [_ [_ [_ H2]]]. congruence. }
+  subst b'. unfold x_ask_result in Er. cbn [fst snd] in Er. rewrite Ho in Er. discriminate.
+Qed.
+
+Lemma existsb_ask_eqb_false a asks : ~ In a asks -> existsb (ask_eqb a) asks = false.
+Proof.
+  intros H. destruct (existsb (ask_eqb a) asks) eqn:E; auto. exfalso. apply H.
+  apply existsb_exists in E as [y [Hy E]]. unfold ask_eqb in E. destruct (ask_eq_dec a y); [subst; auto | discriminate].
+Qed.
+
+(* X.3  A successful block that was NOT asked (broker b was asked something and its call succeeded): the module
+   sends an update for it all the same, with cap(module.topicPartitions[t]) as count -- 0 for an unknown topic. *)
+Theorem xunasked_block_update st x o b t' p' ans t p off rest :
+  xcycle st x = Done o ->
+  In (b, t', p') (co_asks o) -> e_answer (x_env x) b = Good ans ->
+  In (t, p, (0, off :: rest)) (x_extra x b) -> ~ In (b, t, p) (co_asks o) ->
+  In (t, p, off, count_of (snap (co_state o)) t) (co_updates o).
+Proof.
+  intros Hc Hb Hans Hex Hnot. apply xcycle_done in Hc as [Hs [Ha [Hupd _]]].
+  rewrite Hupd, Hs. rewrite Ha in Hb, Hnot. apply in_or_app. right.
+  apply in_flat_map. exists (t, p, BUpdate off). split; [|cbn; auto].
+  unfold extra_results. apply in_flat_map. exists b. split.
+  - unfold asked_brokers. apply nodup_In. apply in_map_iff. exists (b, t', p'). auto.
+  - rewrite Hans. apply in_map_iff. exists (t, p, (0, off :: rest)). split; [reflexivity|].
+    apply filter_In. split; auto. cbn [fst snd]. rewrite existsb_ask_eqb_false by exact Hnot. reflexivity.
+Qed.
+
+(* the three behaviours on concrete worlds (vm_compute):
+   cycle 0 refreshes; topic 1 = {p0@b1, p1@b1}.  Leader(1,1) succeeds during the refresh and fails in
+   generateOffsetRequests: p1 is in the snapshot, is not asked, the flag is set -- in a REFRESHING cycle, which no
+   `env` can exhibit.  Broker 1 omits nothing and adds a block for the unknown topic 9: update (9, 0, 77, 0). *)
+Definition xex_rows (lr1 : call Z) (om0 : bool) : list xtrow :=
+  [ mkXtrow 1 true [ mkXprow (mkProw 0 (Good 1) 0 [10]) (Good 1) om0;
+                     mkXprow (mkProw 1 (Good 1) 0 [20]) lr1 false ] ].
+
+Example x_leader_differs_ex :
+  map (fun r => match snd r with Done o => (fetchMetadata (co_state o), co_asks o, co_updates o) | Crash => (false, [], []) end)
+      (xrun init_state [ (true, xenv_of_tables (Good [1]) (xex_rows Fail false) [] []) ])
+  = [ (true, [(1, 1, 0)], [(1, 0, 10, 2)]) ].
+Proof. vm_compute. reflexivity. Qed.
+
+Example x_unasked_block_ex :
+  map (fun r => match snd r with Done o => (fetchMetadata (co_state o), co_asks o, co_updates o) | Crash => (false, [], []) end)
+      (xrun init_state [ (true, xenv_of_tables (Good [1]) (xex_rows (Good 1) false) [] [(1, 9, 0, 0, [77])]) ])
+  = [ (false, [(1, 1, 0); (1, 1, 1)], [(1, 0, 10, 2); (1, 1, 20, 2); (9, 0, 77, 0)]) ].
+Proof. vm_compute. reflexivity. Qed.
+
+(* an omitted block with an error code behind it: no update, and no flag either *)
+Example x_omitted_ex :
+  map (fun r => match snd r with Done o => (fetchMetadata (co_state o), co_asks o, co_updates o) | Crash => (false, [], []) end)
+      (xrun init_state [ (true, xenv_of_tables (Good [1]) (xex_rows (Good 1) true) [] []) ])
+  = [ (false, [(1, 1, 0); (1, 1, 1)], [(1, 1, 20, 2)]) ].
+Proof. vm_compute. reflexivity. Qed.
+
+(* ---------------------------------------------------------------------------------------------
+   C11, the literal clauses and what HEAD does (audit 2026-10-02; known finding C11:leaderless-at-refresh)
+   --------------------------------------------------------------------------------------------- *)
+
+(* Leader failed for a partition while THIS cycle's refresh ran to completion (kafka_cluster.go:179-184: logged, the
+   partition is left out of the slice, fetchMetadata is NOT set) *)
+Definition unknown_leader_at_refresh (st : state) (e : env) : Prop :=
+  exists ts t ps p, refreshed st e = Some ts /\ In t ts /\ e_parts e t = Good ps /\ In p ps /\ e_leader e t p = Fail.
+
+(* the audit's run: topic 1 = {p0@b1, p1}; p1 has no leader when the metadata is read (cycle 0) and has one from
+   cycle 1 on; the ticker does not fire *)
+Definition aud_e (l1 : call Z) : env :=
+  env_of_tables (Good [1]) [mkTrow 1 true [mkProw 0 (Good 1) 0 [10]; mkProw 1 l1 0 [20]]] [].
+Definition aud_run : list (bool * env) := [ (true, aud_e Fail); (false, aud_e (Good 1)); (false, aud_e (Good 1)) ].
+
+Example aud_run_ex :
+  map (fun en => (fetchMetadata (en_pre en), fetchMetadata (co_state (en_out en)), co_asks (en_out en)))
+      (trace init_state None aud_run)
+  = [ (true, false, [(1, 1, 0)]); (false, false, [(1, 1, 0)]); (false, false, [(1, 1, 0)]) ].
+Proof. vm_compute. reflexivity. Qed.
+
+(* FULL clause 4 ("a per-partition error or an unknown leader causes cluster metadata to be re-read on the next
+   cycle", an unknown leader at EITHER call site) is FALSE for HEAD: *)
+Theorem unknown_leader_at_refresh_forces_refresh_refuted :
+  exists l l1 a b l2,
+    trace init_state None l = l1 ++ a :: b :: l2
+    /\ unknown_leader_at_refresh (en_pre a) (en_env a)
+    /\ fetchMetadata (en_pre b) = false.
+Proof.
+  exists aud_run, []. eexists. eexists. eexists. split; [reflexivity|]. split.
+  - exists [1], 1, [0; 1], 1. repeat split; try (vm_compute; reflexivity); simpl; auto.
+  - vm_compute. reflexivity.
+Qed.
+
+(* FULL clause 1 ("every partition that has a leader is asked of exactly its current leader"), even restricted to
+   partitions the module has seen in its last complete metadata read, is FALSE for HEAD: *)
+Theorem current_leader_asked_refuted :
+  exists l en b t p ge ts ps,
+    In en (trace init_state None l)
+    /\ ghost_now en = Some ge /\ e_topics ge = Good ts /\ In t ts /\ e_parts ge t = Good ps /\ In p ps
+    /\ e_topics (en_env en) = Good ts /\ e_parts (en_env en) t = Good ps
+    /\ e_leader (en_env en) t p = Good b
+    /\ ~ In (b, t, p) (co_asks (en_out en)).
+Proof.
+  destruct (nth_error (trace init_state None aud_run) 2) as [en|] eqn:E; [|vm_compute in E; discriminate].
+  exists aud_run, en, 1, 1, 1, (aud_e Fail), [1], [0; 1].
+  split; [eapply nth_error_In; eauto|].
+  vm_compute in E. inversion E; subst en. clear E.
+  repeat split; try (vm_compute; reflexivity); try (simpl; auto; fail).
+  vm_compute. intros [H|[]]. discriminate.
+Qed.
+
+(* What HEAD does guarantee, in terms of the CURRENT leaders: a partition with a leader now is asked (of that leader)
+   iff its Leader lookup succeeded in the last complete metadata read; that read is this cycle's own whenever this
+   cycle's refresh completed (asked_exactly_leaders_refreshed).  So the staleness of the asked set is exactly "since
+   the last complete refresh", and since a leaderless partition does not force the next refresh (refuted above) that
+   is bounded only by the metadata ticker.  With `module.fetchMetadata = true` at :180 it would be one cycle. *)
+Theorem current_leader_asked_iff_known l en b t p :
+  In en (trace init_state None l) -> e_leader (en_env en) t p = Good b ->
+  (In (b, t, p) (co_asks (en_out en)) <->
+   exists ge ts ps, ghost_now en = Some ge /\ e_topics ge = Good ts /\ In t ts /\ e_parts ge t = Good ps
+     /\ In p ps /\ has_leader ge t p = true).
+Proof.
+  intros Hin Hl. destruct (asked_exactly_leaders_run l en Hin) as [Hiff _]. rewrite Hiff. split.
+  - intros [ge [ts [ps [H1 [H2 [H3 [H4 [H5 [H6 _]]]]]]]]]. exists ge, ts, ps. auto 10.
+  - intros [ge [ts [ps [H1 [H2 [H3 [H4 [H5 H6]]]]]]]]. exists ge, ts, ps. auto 10.
+Qed.
+
+(* the one-cycle characterisation says the same about the flag: a Leader failure during the refresh is no cause *)
+Theorem unknown_leader_at_refresh_sets_no_flag :
+  exists st e o, wf st /\ cycle st e = Done o /\ unknown_leader_at_refresh st e /\ fetchMetadata (co_state o) = false.
+Proof.
+  exists init_state, (aud_e Fail). eexists. split; [apply wf_init|]. split; [vm_compute; reflexivity|]. split.
+  - exists [1], 1, [0; 1], 1. repeat split; try (vm_compute; reflexivity); simpl; auto.
+  - reflexivity.
+Qed.
+
+(* The repair the audit proposes (module.fetchMetadata = true in the branch at :180), as a model: NOT what HEAD does
+   (the existing unit test TestKafkaCluster_maybeUpdateMetadataAndDeleteTopics_PartialUpdate pins the cleared flag, so
+   the repair is not applied; see design_notes/C11.md).  With it an unknown leader at the refresh sets the flag, i.e.
+   the next cycle re-reads and the asked set is at most one cycle stale. *)
+Fixpoint refresh_unknown (e : env) (ts : list Z) : bool :=
+  match ts with
+  | [] => false
+  | t :: r => match e_parts e t with
+              | Fail => false                               (* early return: later topics are not looked at *)
+              | Good ps => existsb (fun p => negb (has_leader e t p)) ps || refresh_unknown e r
+              end
+  end.
+
+Definition cycle_repaired (st : state) (e : env) : outcome cycle_out :=
+  match cycle st e with
+  | Crash => Crash
+  | Done o =>
+      let seen := fetchMetadata st && match e_topics e with Good ts => refresh_unknown e ts | Fail => false end in
+      Done (mkOut (mkState (fetchMetadata (co_state o) || seen) (snap (co_state o))) (co_asks o) (co_updates o) (co_deletes o))
+  end.
+
+Lemma refresh_unknown_complete e ts t ps p :
+  (forall t', In t' ts -> topic_info e t' <> None) ->
+  In t ts -> e_parts e t = Good ps -> In p ps -> e_leader e t p = Fail -> refresh_unknown e ts = true.
+Proof.
+  intros Hall Hin Hps Hp Hl. induction ts as [|a r IH]; [contradiction|]. simpl.
+  destruct (e_parts e a) as [psa|] eqn:Ea.
+  - destruct Hin as [->|Hin].
+    + rewrite Hps in Ea. inversion Ea; subst psa. apply orb_true_iff. left. apply existsb_exists. exists p.
+      split; auto. unfold has_leader. rewrite Hl. reflexivity.
+    + apply orb_true_iff. right. apply IH; auto. intros t' Ht'. apply Hall. right. auto.
+  - exfalso. apply (Hall a (or_introl eq_refl)). unfold topic_info. rewrite Ea. reflexivity.
+Qed.
+
+Theorem repaired_unknown_at_refresh_sets_flag st e o :
+  cycle_repaired st e = Done o -> unknown_leader_at_refresh st e -> fetchMetadata (co_state o) = true.
+Proof.
+  unfold cycle_repaired. destruct (cycle st e) as [o0|]; [|discriminate]. intros H. inversion H; subst o. clear H.
+  intros [ts [t [ps [p [Hr [Hin [Hps [Hp Hl]]]]]]]]. cbn [co_state fetchMetadata].
+  apply refreshed_some in Hr as [Hf [Ht [new Hb]]]. rewrite Hf, Ht. cbn [andb].
+  apply orb_true_iff. right. eapply refresh_unknown_complete; eauto.
+  intros t' Ht'. apply (build_some _ _ _ Hb). auto.
+Qed.
+
+Example repaired_aud_ex :
+  match cycle_repaired init_state (aud_e Fail) with Done o => fetchMetadata (co_state o) | Crash => false end = true.
+Proof. vm_compute. reflexivity. Qed.
